@@ -270,10 +270,22 @@ class Stage_{uid}(Component):
     s.out = OutPort(Req_{uid})
     s.h_in = InPort(Hid_{uid})
     s.h_out = OutPort(Hid_{uid})
+    # short signal names (any name is legal; some are fragments of "clk" / "reset")
+    s.set = InPort(Bits1)
+    s.e = Wire(Bits1)
+    s.t = Wire(Bits4)
+    s.res = OutPort(Bits4)
+    s.lk = Wire(Bits1)
     @update_ff
     def up_stage():
       s.out <<= s.in_
       s.h_out <<= s.h_in
+      s.e <<= s.set
+      s.t <<= s.h_in.a
+    @update
+    def up_res():
+      s.res @= s.t ^ zext(s.e, 4)
+      s.lk @= ~s.e
 
 class Top_{uid}(Component):
   def construct(s):
@@ -284,6 +296,9 @@ class Top_{uid}(Component):
     s.st = [Stage_{uid}() for _ in range({n})]
     s.st[0].in_ //= s.req
     s.st[0].h_in //= s.h
+    s.set = InPort(Bits1)
+    for i in range({n}):
+      s.st[i].set //= s.set
     for i in range({n} - 1):
       s.st[i + 1].in_ //= s.st[i].out
       s.st[i + 1].h_in //= s.st[i].h_out
@@ -314,6 +329,7 @@ def gen_msg(c, uid):
 
 def run_msg(case):
   from ..gen import emit
+  from pymtl3 import Bits1
   from pymtl3.passes.PassGroups import DefaultPassGroup
   from pymtl3.passes.tracing.PrintTextWavePass import PrintTextWavePass
   t = case["tmpl"]
@@ -363,6 +379,7 @@ def run_msg(case):
       for cur, h in t["seq"]:
         top.req @= Req(*cur)
         top.h @= Hid(*h)
+        top.set @= Bits1(h[1] & 1)
         if prev is not None and prev[0][:4] == cur[:4] and prev[0][4] != cur[4]:
           stats["probes"]["only_hidden_field_changed"] += 1
         prev = (cur, h)
@@ -379,6 +396,10 @@ def run_msg(case):
     if bad:
       viols.append(C.viol(bad[0], dict(bad[1], sched="default", family="msg")))
     tw = top.get_metadata(PrintTextWavePass.textwave_dict)
+    want_tw = {k for k in keys if not k.endswith((".clk", ".reset"))} | {"s.reset"}
+    if not viols and set(tw) != want_tw:
+      viols.append(C.viol("textwave_signal_set", {"missing": sorted(want_tw - set(tw))[:5],
+                                                  "extra": sorted(set(tw) - want_tw)[:5], "family": "msg"}))
     for k, lst in sorted(tw.items()):
       if viols:
         break
